@@ -17,11 +17,13 @@ ap.add_argument("which")
 ap.add_argument("--checks", default=None)
 ap.add_argument("--tier", default="quick")
 ap.add_argument("--skip-confirm", action="store_true")
+ap.add_argument("--root", default="/tmp/seed", help="directory holding the agents' scratch worktrees")
+ap.add_argument("--store-as", default=None, help="letter under which the seed is stored (default: same as 'which')")
 a = ap.parse_args()
 
-wt = f"/tmp/seed/{a.prop}"
+wt = f"{a.root}/{a.prop}"
 sd = f"{wt}/seed_{a.which}"
-sid = f"{a.prop}-{a.which}"
+sid = f"{a.prop}-{a.store_as or a.which}"
 dst = f"/verif/seeded/{sid}"
 PY = "/venv/bin/python"
 
@@ -63,6 +65,11 @@ assert out.strip() == "", "/repo has uncommitted changes: " + out
 rc, out = sh(f"git apply {dst}/patch.diff", cwd="/repo")
 assert rc == 0, "patch does not apply to /repo: " + out
 res = meta.setdefault("checks_run", {})
+saved = {}
+for c in checks:                      # evidence files describe the unchanged tree: keep them
+    ep = f"/verif/evidence/{c}.json"
+    if os.path.exists(ep):
+        saved[ep] = open(ep).read()
 try:
     for c in checks:
         t0 = time.time()
@@ -76,4 +83,6 @@ try:
             print(out[-1500:])
 finally:
     sh("git checkout -- .", cwd="/repo")
+    for ep, txt in saved.items():
+        open(ep, "w").write(txt)
 json.dump(meta, open(f"{dst}/meta.json", "w"), indent=1)
